@@ -36,10 +36,17 @@ are not yet truncated (`OplogBytes.opinv_flush_mid`).
 the observations of the abstract log it recovered to.  **`acknowledged_stays`**: once all storage
 operations of a call are done (the call is acknowledged), the recovered log is the one after the call.
 
-Not covered by these theorems: a second crash or reopen of a core that was recovered from the one crash
-point "new header written, entry region not truncated" while it still has stale bytes behind its entries
-(that no suffix of the stale region validates as a frame is a CRC argument, not a theorem), proof
-applications on a replica, `make_read_only`, and torn writes (C07).  Those are validated by the run.
+**`crash_refinement`** (the strongest form): histories in which calls complete, the store is closed and
+reopened, or the process dies after any number of storage operations of a call and the store is reopened —
+any number of times, in any order (`LogSpec.XStep`, `runX`).  Every reopen succeeds and the whole
+observation sequence is one the abstract log produces when each crash leaves the log before the
+interrupted call or the log after it (`LogSpec.AbsX`).  Recovery re-establishes the ghost invariant
+(`Crash.recover_persist`); this rests on `Oplog::open` cutting off what follows the entries it read (the
+stale entries of a flush that was cut between its header write and its truncate) — the repair `a6a0579` of
+a defect these crash histories exposed in the pinned tree.
+
+Not covered by these theorems: proof applications on a replica, `make_read_only`, and torn writes (C07).
+Those are validated by the run.
 -/
 namespace HC.C02
 open HC.Rotation
@@ -180,6 +187,61 @@ theorem acknowledged_stays (C : Crypto) (hC : HashWF C) (hS : SignWF C) (hTw : T
   obtain ⟨c', hopen, hrep', _⟩ := reopen_persist C hC hTw _ _ hf' a0' _ es' hrep2 hp2
   rw [hdisk]
   exact ⟨c', hopen, hrep'⟩
+
+/-- every call of a history with crashes is within the quantifier, whichever way the crashes before it
+    were resolved -/
+def XOK (a : Abs) : List XStep → Prop
+  | [] => True
+  | .call op :: rest => Valid a op ∧ Limits a op ∧ XOK (a.step op).1 rest
+  | .reopen :: rest => XOK a rest
+  | .crash op _ :: rest => Valid a op ∧ Limits a op ∧ XOK a rest ∧ XOK (a.step op).1 rest
+
+/-- **C02 in full for a writer, on the model.**  Histories in which calls complete, the store is closed and
+    reopened, or the process dies after any number of storage operations of a call and the store is
+    reopened — any number of times, in any order: every reopen succeeds, and the observations are those of
+    the abstract log in which each crash leaves the log before the interrupted call or the log after it. -/
+theorem crash_refinement_from (C : Crypto) (hC : HashWF C) (hS : SignWF C) (hTw : TreeWF C) (steps : List XStep) :
+    ∀ (c : Core) (d : Disk) (a : Abs) (hf : Header) (a0 : Abs) (es : List Entry), Rep C c d a →
+      Persist C c d hf a0 es a → XOK a steps → AbsX a steps (runX C (c, d) steps).2 := by
+  induction steps with
+  | nil => intro c d a hf a0 es _ _ _; exact AbsX.nil a
+  | cons st rest ih =>
+    intro c d a hf a0 es h hp hok
+    cases st with
+    | call op =>
+      obtain ⟨h1, h2⟩ := step_refines C hC c d a h op hok.1
+      obtain ⟨hf', a0', es', hp2⟩ := persist_step C hC hS hTw c d hf a0 a es h hp op hok.1 hok.2.1
+      have := ih _ _ _ hf' a0' es' h2 hp2 hok.2.2
+      simp only [runX, stepX]
+      rw [h1]
+      exact AbsX.call a op rest _ this
+    | reopen =>
+      obtain ⟨c', hopen, hrep', hp'⟩ := reopen_persist C hC hTw c d hf a0 a es h hp
+      have := ih c' d a hf a0 es hrep' hp' hok
+      simp only [runX, stepX, stepC', hopen, LiveRefine.applyAll_nil]
+      exact AbsX.reopen a rest _ this
+    | crash op k =>
+      obtain ⟨hv, hl, hok1, hok2⟩ := hok
+      rcases crash_step C hC hS hTw c d hf a0 a es h hp op hv hl k with ⟨hf', a0', es', hd⟩ | ⟨hf', a0', es', hd⟩
+      · obtain ⟨c', j, hopen, hrep', hp'⟩ := recover_persist C hC hTw _ hf' a0' es' _ hd
+        have := ih c' _ a hf' a0' es' hrep' hp' hok1
+        simp only [runX, stepX, hopen]
+        exact AbsX.crashBefore a op k rest _ this
+      · obtain ⟨c', j, hopen, hrep', hp'⟩ := recover_persist C hC hTw _ hf' a0' es' _ hd
+        have := ih c' _ _ hf' a0' es' hrep' hp' hok2
+        simp only [runX, stepX, hopen]
+        exact AbsX.crashAfter a op k rest _ this
+
+/-- … in particular from a freshly created core (32-byte key and seed) -/
+theorem crash_refinement (C : Crypto) (hC : HashWF C) (hS : SignWF C) (hTw : TreeWF C) (pk sk : Bytes)
+    (hpk : pk.length = 32) (hsk : sk.length = 32) (steps : List XStep) (hok : XOK {} steps) :
+    ∃ c j, Core.openCore C (some (pk, some sk)) {} = .ok (c, j) ∧ AbsX {} steps (runX C (c, ({} : Disk).applyAll j) steps).2 := by
+  obtain ⟨c, j, h1, h2, h3⟩ := init_both C pk sk hpk hsk
+  exact ⟨c, j, h1, crash_refinement_from C hC hS hTw steps c _ {} _ {} [] h2 h3 hok⟩
+
+/-- non-vacuity: two crashes in a row, then further calls, are within the quantifier -/
+example : XOK {} [.call (.append [[1, 2], []]), .crash (.append [[3]]) 5, .crash (.clear 0 1) 1, .reopen, .call (.get 0), .call .info] := by
+  simp [XOK, Valid, Limits, Abs.step, totalBytes]
 
 /-- non-vacuity: a call after a history with a reopen is within the quantifier, and its journal has crash
     points (an append issues a data write and an oplog write before anything else) -/
